@@ -31,7 +31,7 @@ def _master(case):
     src = case['source']
     if src['kind'] == 'mnemonic':
         words = bip39.entropy_to_words(bytes.fromhex(src['entropy']), 'english')
-        return bip32.master(bip39.seed(' '.join(words))), ' '.join(words)
+        return bip32.master(bip39.seed(' '.join(words), src.get('passphrase') or '')), ' '.join(words)
     return bip32.master(bytes.fromhex(src['seed'])), None
 
 
@@ -52,12 +52,15 @@ def _create(case, tag, how=None):
     else:
         if case['source']['kind'] == 'mnemonic':
             from ref import bip39
-            seed = bip39.seed(words)
+            seed = bip39.seed(words, case['source'].get('passphrase') or '')
         else:
             seed = bytes.fromhex(case['source']['seed'])
         keys = HDKey.from_seed(seed, network=net, witness_type=wt)
-    w = Wallet.create('w', keys=keys, network=net, witness_type=wt, db_uri=uri,
-                      **({'account_id': case['account0']} if case.get('account0') else {}))
+    kw = {'account_id': case['account0']} if case.get('account0') else {}
+    if how == 'mnemonic' and case['source'].get('passphrase'):
+        # the BIP39 passphrase of a sentence is handed over as the password argument
+        kw['password'] = case['source']['passphrase']
+    w = Wallet.create('w', keys=keys, network=net, witness_type=wt, db_uri=uri, **kw)
     return w, uri, path
 
 
@@ -443,7 +446,8 @@ def _strategy(ctx):
         wt = draw(st.sampled_from(wts))
         other = st.sampled_from([None, None, None] + [x for x in wts if x != wt])
         if draw(st.booleans()):
-            source = {'kind': 'mnemonic', 'entropy': draw(st.binary(min_size=16, max_size=16)).hex()}
+            source = {'kind': 'mnemonic', 'entropy': draw(st.binary(min_size=16, max_size=16)).hex(),
+                      'passphrase': draw(st.sampled_from(['', '', 'TREZOR', 'correct horse', 'p\u00e4ss']))}
         else:
             source = {'kind': draw(st.sampled_from(['seed', 'xprv'])),
                       'seed': draw(st.binary(min_size=16, max_size=32)).hex()}
